@@ -56,7 +56,7 @@ pub const R_ROUND_END: u32 = 20;
 /// mode 1: run under the tracer (QUIESCE is a barrier); mode 0: native (QUIESCE sleeps)
 pub const MODE_TRACED: u64 = 1;
 
-pub const CLASSES: u32 = 7;
+pub const CLASSES: u32 = 11;
 pub const C_UNIT: u32 = 0;
 pub const C_U8: u32 = 1;
 pub const C_U64: u32 = 2;
@@ -64,6 +64,11 @@ pub const C_B24: u32 = 3;
 pub const C_W33: u32 = 4;
 pub const C_A64: u32 = 5;
 pub const C_A4096: u32 = 6;
+/// result types whose `Option` has no separate tag (niche) or that own heap memory
+pub const C_BOOL: u32 = 7;
+pub const C_OPT_U32: u32 = 8;
+pub const C_STRING: u32 = 9;
+pub const C_RESULT_U8: u32 = 10;
 
 pub const FATE_JOIN_NOW: u32 = 0;
 pub const FATE_JOIN_LATER: u32 = 1;
@@ -81,6 +86,10 @@ pub const fn class_name(c: u32) -> &'static str {
         4 => "words33",
         5 => "align64",
         6 => "align4096",
+        7 => "bool",
+        8 => "option-u32",
+        9 => "string",
+        10 => "result-u8",
         _ => "?",
     }
 }
@@ -127,6 +136,23 @@ pub const fn class_shape(class: u32) -> (u32, u32) {
 
 /// Hash of the value a closure of `class` with `tag` returns.
 pub const fn expected_vhash(class: u32, tag: u32) -> u64 {
+    let w0 = vword(tag, 0);
+    match class {
+        C_BOOL => return vfold(vfold(VHASH_SEED, class as u64), w0 & 1),
+        C_OPT_U32 => return vfold(vfold(vfold(VHASH_SEED, class as u64), w0 & 1), if w0 & 1 == 1 { w0 >> 32 } else { 0 }),
+        C_STRING => {
+            let n = string_len(tag);
+            let mut h = vfold(vfold(VHASH_SEED, class as u64), n as u64);
+            let mut i = 0;
+            while i < n {
+                h = vfold(h, string_byte(tag, i) as u64);
+                i += 1;
+            }
+            return h;
+        }
+        C_RESULT_U8 => return vfold(vfold(vfold(VHASH_SEED, class as u64), w0 & 1), (w0 >> 8) & 0xff),
+        _ => {}
+    }
     let (n, full) = class_shape(class);
     let mut h = vfold(VHASH_SEED, class as u64);
     let mut i = 0;
@@ -136,6 +162,15 @@ pub const fn expected_vhash(class: u32, tag: u32) -> u64 {
         i += 1;
     }
     h
+}
+
+/// length and bytes of the String a closure of class C_STRING returns
+pub const fn string_len(tag: u32) -> u32 {
+    1 + (vword(tag, 0) % 40) as u32
+}
+
+pub const fn string_byte(tag: u32, i: u32) -> u8 {
+    b'a' + (vword(tag, i + 1) % 26) as u8
 }
 
 /// value a closure stores into its buffer slot
